@@ -103,6 +103,11 @@ func (s authStateNone) receiveDHCommitMessage(c *Conversation, msg []byte) (auth
 }
 
 func (s authStateAwaitingRevealSig) receiveDHCommitMessage(c *Conversation, msg []byte) (authState, messageWithHeader, error) {
+	// a message that cannot be parsed must not disturb an exchange in progress
+	if err := new(dhCommit).deserialize(msg); err != nil {
+		return s, nil, err
+	}
+
 	//As per spec, we forget the old DH-commit (received before we sent the DH-Key)
 	//and use this one, so we forget all the keys
 	c.ake.keys = c.ake.keys.wipeAndKeepRevealKeys()
@@ -144,6 +149,15 @@ func (s authStateAwaitingDHKey) receiveDHCommitMessage(c *Conversation, msg []by
 	//Forget your old gx value that you sent (encrypted) earlier, and pretend you're in AUTHSTATE_NONE; i.e. reply with a D-H Key Message, and transition authstate to AUTHSTATE_AWAITING_REVEALSIG.
 	//This is done as part of receiving a DHCommit message in AUTHSTATE_NONE
 	return authStateNone{}.receiveDHCommitMessage(c, msg)
+}
+
+func (s authStateAwaitingSig) receiveDHCommitMessage(c *Conversation, msg []byte) (authState, messageWithHeader, error) {
+	// a message that cannot be parsed must not disturb the exchange in progress
+	if err := new(dhCommit).deserialize(msg); err != nil {
+		return s, nil, err
+	}
+
+	return s.authStateBase.receiveDHCommitMessage(c, msg)
 }
 
 func (s authStateNone) receiveDHKeyMessage(c *Conversation, msg []byte) (authState, messageWithHeader, error) {
